@@ -7,7 +7,7 @@ CHECKS = {
  "C01": dict(
    technique="property-based fuzzing with process isolation: proptest-generated free-mode templates (grammar over every construct and built-in, boundary arguments, mutations, ladders) plus an enumerated built-in x boundary-argument grid and an enumerated family of loop accumulators, run in worker processes of a debug (opt-level 0, overflow checks) and a release build on 2 MiB and 8 MiB threads; oracle = the worker survives and no panic is caught; parent-side delta-debugging shrinker for crashes; thorough tier adds a coverage-guided libFuzzer campaign (harness/fuzz, target render_bytes) with the same oracle",
    level="exploration",
-   text="Generated templates, companions and contexts are loaded, rendered and evaluated as expressions in child processes; every returned error is formatted in all forms. A panic (caught in the worker), a native stack overflow, an abort or a failed allocation larger than the worker's whole address-space limit is a violation attributed to the case that was running and shrunk by re-spawning single-case children. An enumerated grid applies every built-in filter/test (static list plus the names registered in the tree under test) and every function/loop method to 20 subjects (incl. strings starting with multi-byte characters) with 0-3 boundary arguments and keyword arguments; range() is enumerated over all triples of 16 boundary integers and string literals over every sequence of up to three escape pieces (surrogate halves, malformed \\u/\\x/octal escapes) in four syntactic positions; 15 step expressions grow a namespace attribute over 6 000-120 000 loop steps and 8 consumers use it; 600 programs let a recursive loop object travel into foreign code. Thorough: libFuzzer, 16 processes x VERIF_FUZZ_SECONDS (default 900 s), inputs up to 4 KiB split into main source and companions, crash artifacts re-run alone and saved as replay files.",
+   text="Generated templates, companions and contexts are loaded, rendered and evaluated as expressions in child processes; every returned error is formatted in all forms. A panic (caught in the worker), a native stack overflow, an abort or a failed allocation larger than the worker's whole address-space limit is a violation attributed to the case that was running and shrunk by re-spawning single-case children. An enumerated grid applies every built-in filter/test (static list plus the names registered in the tree under test) and every function/loop method to 20 subjects (incl. strings starting with multi-byte characters) with 0-3 boundary arguments and keyword arguments; range() is enumerated over all triples of 16 boundary integers and string literals over every sequence of up to three escape pieces (surrogate halves, malformed \\u/\\x/octal escapes) in four syntactic positions; 15 step expressions grow a namespace attribute over 6 000-120 000 loop steps and 8 consumers use it; 600 programs let a recursive loop object travel into foreign code. Thorough: libFuzzer, 16 processes x VERIF_FUZZ_SECONDS (default 900 s), inputs up to 4 KiB split into main source and companions, crash artifacts re-run alone and saved as replay files. The built-in grid also formats safe format strings (|safe, set-block captures) with undefined, none, safe, unsafe and non-string arguments under all four undefined behaviours.",
    note="Four listed findings (deep operator ladders, deeply nested values, lazy slice chains, block self-recursion) are native stack overflows; they are excluded by construction (ladder length and fuel caps, no self.block() inside blocks, no re-slicing accumulator) and only their own witnesses are matched. Hangs/oom under the harness limit are counted as inconclusive watchdog hits, not violations.",
    design="3/C01"),
  "C02": dict(
@@ -25,13 +25,13 @@ CHECKS = {
  "C04": dict(
    technique="property-based testing: metamorphic relation between an expression over literals and every variant with a subset of its literal leaves hoisted into context variables",
    level="exploration",
-   text="Generated expressions over the literal syntax (boundary integers, floats, strings, left-leaning chains of one operator over operands where regrouping shows (floats at 2^53, integers at the 64/128-bit boundaries), and/or with falsy/truthy operands, comparison chains, in, ~, lists, tuples, maps, negated literals, filters/functions with literal keyword arguments) are rendered as written and with every (sampled beyond 6 leaves) subset of literal leaves replaced by variables bound to the engine's own value for that literal; text and error-ness must agree. `{% if false %}{{ E }}{% endif %}` must load and render empty.",
+   text="Generated expressions over the literal syntax (boundary integers, floats, strings, left-leaning chains of one operator over operands where regrouping shows (floats at 2^53, integers at the 64/128-bit boundaries), and/or with falsy/truthy operands, comparison chains, in, ~, lists, tuples, maps, negated literals, filters/functions with literal keyword arguments) are rendered as written and with every (sampled beyond 6 leaves) subset of literal leaves replaced by variables bound to the engine's own value for that literal; text and error-ness must agree. `{% if false %}{{ E }}{% endif %}` must load and render empty. Calls that repeat a keyword name (dict, sort) are generated too: the last one given wins however the values are written.",
    note="Lazy sequence repetitions with astronomically large counts are excluded from the generator (printing them never ends; a hang is not this property's subject).",
    design="3/C04"),
  "C05": dict(
    technique="property-based testing with path enumeration: generated skeletons of nested scoped constructs with break/continue at every accepted position and recursive loops that call themselves in five forms (bare, assigned, filtered, with lazy arguments of unknown length), every control-flow path driven through context booleans and list lengths, state-balance invariant observed through the verif_hooks monitor plus sentinel/scope/escape probes in the output",
    level="exploration",
-   text="For each generated program all assignments of its condition booleans and loop lengths (up to 160, else sampled) are rendered in .txt and .html; per path the feature-guarded balance monitor (frame depth, capture depth, auto-escape stack and operand stack equal at entry and normal exit of every instruction-stream evaluation; no foreign frame/capture popped) must stay silent, markers written after every top-level construct must reach the output in order, the escape mode and outer variables must be as before, inner assignments of isolating constructs must be gone, and so must whatever an included template assigned while it ran inside a construct with a scope of its own (also a block that assigns nothing itself).",
+   text="For each generated program all assignments of its condition booleans and loop lengths (up to 160, else sampled) are rendered in .txt and .html; per path the feature-guarded balance monitor (frame depth, capture depth, auto-escape stack and operand stack equal at entry and normal exit of every instruction-stream evaluation; no foreign frame/capture popped) must stay silent, markers written after every top-level construct must reach the output in order, the escape mode and outer variables must be as before, inner assignments of isolating constructs must be gone, and so must whatever an included template assigned while it ran inside a construct with a scope of its own (also a block that assigns nothing itself). An enumerated part includes templates that exist and fail while one of their own constructs is open (7 failing statements x 10 open constructs) through plain / ignore missing / list-of-choices includes in 5 wrappers: the render fails, or the text, escape mode and scope after the include are intact.",
    note="Paths are complete only for programs with at most 160 assignments. The reference-interpreter comparison of whole outputs is part of C03.",
    design="3/C05"),
  "C06": dict(
@@ -61,7 +61,7 @@ CHECKS = {
  "C10": dict(
    technique="model-based property testing (whitespace rules as worded vs engine, enumerated for short sequences and generated beyond) plus metamorphic testing (same program under 12 fixed and random delimiter configurations, line statements vs whole-line block tags) plus differential testing of styled programs against the reference interpreter",
    level="exploration",
-   text="(a) Sequences of text and variable/block/comment/raw tags with every marker on either side are rendered under the 8 whitespace settings and compared with an independent model of the documented rules, with default delimiters and re-spelled under three custom delimiter sets (one prefix-sharing, one whose block start can overlap itself); all sequences of length <= 2 and all text-tag-text / tag-text-tag triples over a 37-symbol alphabet are enumerated. (b) Generated single-file programs whose text consists of partial and look-alike delimiters must render identically (or fail alike) with default delimiters and with each of 12 delimiter sets incl. prefix-sharing and nested-prefix ones. (c) Default-looking delimiters are verbatim text under a custom syntax; line statements/comments behave like whole-line tags. (d) Well-typed programs (C03 generator) with whitespace/look-alike texts are printed in a random style - fixed or random delimiter configuration, -/+ markers on any tag, free spacing in tags, whitespace that a marker removes, comments, texts as raw blocks, block tags as line statements, 8 settings - the per-text-run form of the whitespace model says which characters survive, and the reference interpreter run on the program with exactly those texts must agree with the engine. (b) and (d) draw random unambiguous delimiter configurations (prefix-sharing, self-overlapping, single-character).",
+   text="(a) Sequences of text and variable/block/comment/raw tags with every marker on either side are rendered under the 8 whitespace settings and compared with an independent model of the documented rules, with default delimiters and re-spelled under three custom delimiter sets (one prefix-sharing, one whose block start can overlap itself); all sequences of length <= 2 and all text-tag-text / tag-text-tag triples over a 37-symbol alphabet are enumerated. (b) Generated single-file programs whose text consists of partial and look-alike delimiters must render identically (or fail alike) with default delimiters and with each of 12 delimiter sets incl. prefix-sharing and nested-prefix ones. (c) Default-looking delimiters are verbatim text under a custom syntax; line statements/comments behave like whole-line tags. (d) Well-typed programs (C03 generator) with whitespace/look-alike texts are printed in a random style - fixed or random delimiter configuration, -/+ markers on any tag, free spacing in tags, whitespace that a marker removes, comments, texts as raw blocks, block tags as line statements, 8 settings - the per-text-run form of the whitespace model says which characters survive, and the reference interpreter run on the program with exactly those texts must agree with the engine. (b) and (d) draw random unambiguous delimiter configurations (prefix-sharing, self-overlapping, single-character). Line statements are followed by nothing, an empty line or a blank line and rendered under all four trim_blocks x lstrip_blocks settings against the whole-line-tag form.",
    note="A lone CR next to a tag is outside the model (undocumented whether it is a line boundary). (b) compares the engine with itself under two printings of the same AST; (d) is judged by model/ws.rs + refint.rs. Not generated (meaning undocumented): end delimiters that begin with a marker character or whitespace, text completing a delimiter across a tag boundary, trailing line comments.",
    design="3/C10"),
  "C11": dict(
@@ -85,7 +85,7 @@ CHECKS = {
  "C14": dict(
    technique="property-based testing: generated failing templates (structured programs with failing pieces, character-level mutations, truncations), validity oracle on every located error of the cause chain, metamorphic relation under vertical/horizontal padding, enumerated planted errors with known lines",
    level="exploration",
-   text="For every error of the cause chain that names a template the line must lie inside that template's source and a reported range must be a valid slice (bounds, char boundaries) on the reported line; inserting N lines above / M characters in front must shift line/range by exactly that and change nothing else; all formatting forms must complete. A division by zero planted in 29 expression positions and 16 failing statements that end their line (x surroundings x offsets, enumerated) must be reported on its own line; so must six prints that fail because of the escape mode of their template (JSON, a custom format).",
+   text="For every error of the cause chain that names a template the line must lie inside that template's source and a reported range must be a valid slice (bounds, char boundaries) on the reported line; inserting N lines above / M characters in front must shift line/range by exactly that and change nothing else; all formatting forms must complete. A division by zero planted in 29 expression positions and 16 failing statements that end their line (x surroundings x offsets, enumerated) must be reported on its own line; so must six prints that fail because of the escape mode of their template (JSON, a custom format). Further planted rows fail in instructions without a span of their own (not / inline-if on an undefined name under strict mode) inside every literal form, bare tuples with a trailing comma included.",
    note="Vertical shifts are only asserted while the padded template stays within 65 535 lines (the property's domain).",
    design="3/C14"),
  "C15": dict(
@@ -103,7 +103,7 @@ CHECKS = {
  "C17": dict(
    technique="property-based testing: complete enumeration of template names over the quantifier's segment alphabet plus proptest-generated noise names, validity oracle on the returned content against a scratch directory tree with canary files; safe_join additionally checked as a pure function",
    level="exploration",
-   text="Every join of up to 5 segments of the 14-entry alphabet (579 194 names) and generated noise names are loaded through get_template, include, include-list, extends and import from a real directory tree whose files state their own relative path and whose surroundings hold OUTSIDE canaries; an Ok result must be the INSIDE file named by the non-empty, non-dot segments. safe_join (via the verif_hooks re-export) must return None or a path whose components are exactly those segments, for the scratch base and nine other spellings of a base (empty, relative, trailing separator, root).",
+   text="Every join of up to 5 segments of the 14-entry alphabet (579 194 names) and generated noise names are loaded through get_template, include, include-list, extends and import from a real directory tree whose files state their own relative path and whose surroundings hold OUTSIDE canaries; an Ok result must be the INSIDE file named by the non-empty, non-dot segments. safe_join (via the verif_hooks re-export) must return None or a path whose components are exactly those segments, for the scratch base and nine other spellings of a base (empty, relative, trailing separator, root). Names built from the scratch tree's own absolute path (the base, its parent, siblings whose name extends the base's name) are enumerated and generated as well.",
    note="Assumes Linux path semantics and no symlinks inside the base. Exhaustive only over the stated alphabet and length.",
    design="3/C17"),
  "C18": dict(
